@@ -1,6 +1,66 @@
 import PgFdr.Json
+import PgFdr.Model.C02
 namespace PgFdr.Driver
 open Lean PgFdr
+
+def jmode (strategy : String) (picking : Option String) : R C02.Mode :=
+  match strategy with
+  | "picked" => .ok .picked
+  | "classic" => .ok .classic
+  | "picked_group" =>
+    match picking with
+    | some "all" => .ok (.pickedGroup .all)
+    | some "majority" => .ok (.pickedGroup .majority)
+    | some "leading" | none => .ok (.pickedGroup .leading)
+    | some s => .error s!"unknown picking strategy {s}"
+  | s => .error s!"unknown strategy {s}"
+
+/-- `zip(groups, infos, scores)` (truncating like Python's `zip`) -/
+def zipItems : List (List String) → List (List Evidence) → List Rat → List C02.Item
+  | g :: gs, e :: es, s :: ss => ⟨g, e, s⟩ :: zipItems gs es ss
+  | _, _, _ => []
+
+def jcall (j : Json) : R C02.Call := do
+  let groups ← jgroups (← jget j "groups")
+  let infos ← jlist (jlist jevidence) (← jget j "infos")
+  let scores ← jlist jrat (← jget j "scores")
+  match ← jlist (jlist jnat) (← jget j "shuffles") with
+  | [p1, p2] => pure ⟨zipItems groups infos scores, p1, p2⟩
+  | _ => .error "expected exactly two recorded shuffles"
+
+def ofRanking (r : List C02.Item) : Json :=
+  if r.isEmpty then ofErr "no_ranked_groups"   -- `zip(*[])`: not enough values to unpack
+  else obj [("groups", ofGroups (r.map (·.group))),
+            ("infos", ofList (ofList ofEvidence) (r.map (·.evidence))),
+            ("scores", ofList ofRat (r.map (·.score)))]
+
+/-- the calls one after the other on one strategy object; a recorded permutation that does not fit
+    the list the model shuffles at that point is a protocol error (the correspondence is broken) -/
+def runChecked (mode : C02.Mode) : List String → List C02.Call → R (List (List C02.Item) × List String)
+  | seen, [] => .ok ([], seen)
+  | seen, c :: cs => do
+    if !C02.shufflesFit mode seen c then
+      .error s!"recorded shuffles do not fit: {c.π₁} {c.π₂} for {(c.items.filter (·.hasEvidence)).length} groups with evidence, {(C02.keptFrom mode seen c.items c.π₁).length} survivors"
+    let r := C02.competeFrom mode seen c.items c.π₁ c.π₂
+    let rest ← runChecked mode r.2 cs
+    pure (r.1 :: rest.1, rest.2)
+
+/-- `{"op":"compete","strategy":"picked|picked_group|classic","picking":"all|majority|leading",
+      "calls":[{"groups":…,"infos":…,"scores":[R…],"shuffles":[[Nat…],[Nat…]]}…]}`
+    → `{"results":[{"groups","infos","scores"} | {"err":"no_ranked_groups"} …],"seen_after":[…],
+        "pass_orders":[[group…]…]}`; the calls are made on ONE strategy object (`C02.runCalls`). -/
+def handleCompete (j : Json) : R Json := do
+  let strategy ← jstr (← jget j "strategy")
+  let picking ← match jgetOpt j "picking" with
+    | some p => do pure (some (← jstr p))
+    | none => pure none
+  let mode ← jmode strategy picking
+  let calls ← jlist jcall (← jget j "calls")
+  let _ ← runChecked mode [] calls
+  let r := C02.runCalls mode [] calls
+  pure (obj [("results", ofList ofRanking r.1), ("seen_after", ofStrs r.2),
+             ("pass_orders", ofList (fun c => ofGroups ((C02.passOrder c.items c.π₁).map (·.group))) calls)])
+
 /-- protocol handlers of property C02: (op name, handler) -/
-def handlersC02 : List (String × (Json → R Json)) := []
+def handlersC02 : List (String × (Json → R Json)) := [("compete", handleCompete)]
 end PgFdr.Driver
